@@ -22,8 +22,10 @@ import (
 	"strings"
 )
 
-var frameRe = regexp.MustCompile(`^\s+([^\s(]+)\(`)
+var frameRe = regexp.MustCompile(`^  (\S.*)\(.*\)\s*$`)
 var lineRe = regexp.MustCompile(`:\d+( \+0x[0-9a-f]+)?$`)
+
+var _ = frameRe
 
 type report struct {
 	text   string
@@ -50,8 +52,14 @@ func parse(text string) []report {
 				flush()
 				continue
 			}
-			if m := frameRe.FindStringSubmatch(line); m != nil {
-				cur = append(cur, m[1])
+			if strings.HasPrefix(line, "  ") && !strings.HasPrefix(line, "   ") {
+				fn := strings.TrimSpace(line)
+				if i := strings.LastIndex(fn, "("); i > 0 {
+					fn = fn[:i]
+				}
+				if fn != "" && !strings.Contains(fn, " ") {
+					cur = append(cur, fn)
+				}
 			}
 		}
 		flush()
@@ -107,7 +115,16 @@ func main() {
 			sig = append(sig, strings.Join(fns, ">"))
 			if len(fns) > 0 {
 				entries = append(entries, fns[len(fns)-1])
-				tops = append(tops, fns[0])
+				// identity for known-finding signatures: the first frame inside gqlgen / generated
+				// code (top frames such as bufio.(*Writer).Write are shared by unrelated races)
+				top := fns[0]
+				for _, fn := range fns {
+					if isTarget(fn) {
+						top = fn
+						break
+					}
+				}
+				tops = append(tops, top)
 			}
 		}
 		sort.Strings(sig)
